@@ -128,7 +128,7 @@ CHECKS = {
           "inbound stream, fault position and handler: c20a_own_close_not_reported (a reader report implies stop flag clear, socket not "
           "closed by close(), peer failed), c20a_no_fault_no_report, c20a_writer_never_writes_closed, c20a_again (every step of a repeated "
           "close() is enabled at once and changes nothing but one more stop pill), c20a_closed, c20a_tasks_accounted, c20a_fifo, "
-          "c20a_flushed, c20a_app_progress, c20a_reader_ends, c20a_report_once, c20a_exit_iff, c20a_exc_only_after_shutdown; tied by trace "
+          "c20a_flushed, c20a_nothing_after_pill (what is written is always a prefix of what was enqueued before the first stop pill), c20a_app_progress, c20a_reader_ends, c20a_report_once, c20a_exit_iff, c20a_exc_only_after_shutdown; tied by trace "
           "acceptance of the real event log (both server kinds, 1-3 close() calls at a random moment, peer failures, failing writes).",
   "ref": "DESIGN.md §5 C20",
   "note": "trusted: Lean kernel; scheduler shim with scripted socket; os._exit substituted; real socket/exit semantics are the OS's",
